@@ -10,8 +10,40 @@ import (
 	"time"
 
 	"github.com/eclipse/paho.mqtt.golang/packets"
+	"github.com/megaease/easegress/pkg/context"
 	"github.com/megaease/easegress/pkg/logger"
+	"github.com/megaease/easegress/pkg/protocols/mqttprot"
 )
+
+// c14Pipe is the Publish pipeline of the conn group (it only ever sees WILL messages):
+// the verdict is the first payload byte, 'D' drop, 'X' disconnect, anything else pass.
+type c14Pipe struct{}
+
+func (c14Pipe) Handle(ctx *context.Context) string {
+	req := ctx.GetRequest(context.DefaultNamespace).(*mqttprot.Request)
+	resp := ctx.GetResponse(context.DefaultNamespace).(*mqttprot.Response)
+	if req.PacketType() != mqttprot.PublishType {
+		return ""
+	}
+	if pl := req.PublishPacket().Payload; len(pl) > 0 {
+		switch pl[0] {
+		case 'D':
+			resp.SetDrop()
+		case 'X':
+			resp.SetDisconnect()
+		}
+	}
+	return ""
+}
+
+type c14Mux struct{}
+
+func (c14Mux) GetHandler(name string) (context.Handler, bool) {
+	if name == "c14-publish" {
+		return c14Pipe{}, true
+	}
+	return nil, false
+}
 
 // C14 harness, group "conn": the same histories at CONNECTION level. Every client
 // is a raw MQTT peer talking to the real Broker.handleConn over an in-memory
@@ -56,7 +88,8 @@ func c14NewConnEnv(lru int) *c14ConnEnv {
 		name:              "c14conn",
 		spec:              &Spec{Name: "c14conn", EGName: "eg"},
 		clients:           make(map[string]*Client),
-		pipelines:         make(map[PacketType]string),
+		pipelines:         map[PacketType]string{Publish: "c14-publish"},
+		muxMapper:         c14Mux{},
 		done:              make(chan struct{}),
 		connectionLimiter: newLimiter(nil),
 	}
@@ -132,7 +165,7 @@ func (p *c14Peer) ping() (suback, unsuback, ok bool) {
 	}
 }
 
-func (e *c14ConnEnv) dial(cid string, clean bool) *c14Peer {
+func (e *c14ConnEnv) dial(cid string, clean bool, will string) *c14Peer {
 	srv, cli := net.Pipe()
 	p := &c14Peer{cid: cid, clean: clean, conn: cli, done: make(chan struct{})}
 	go func() {
@@ -144,6 +177,12 @@ func (e *c14ConnEnv) dial(cid string, clean bool) *c14Peer {
 	cp.ProtocolVersion = 4
 	cp.ClientIdentifier = cid
 	cp.CleanSession = clean
+	if will != "" {
+		cp.WillFlag = true
+		cp.WillTopic = "will/" + cid
+		cp.WillQos = 0
+		cp.WillMessage = []byte(map[string]string{"drop": "Dropped", "disc": "Xdisconnect"}[will] + "will of " + cid)
+	}
 	if !p.write(cp) {
 		e.bad = true
 		return nil
@@ -181,7 +220,7 @@ func (e *c14ConnEnv) ensure(cid string) *c14Peer {
 	if p, ok := e.peers[cid]; ok {
 		return p
 	}
-	p := e.dial(cid, true)
+	p := e.dial(cid, true, "")
 	if p != nil {
 		e.peers[cid] = p
 	}
@@ -218,7 +257,7 @@ func c14RunConn(in c14In) (obs c14Obs) {
 				if online && !old.clean && !op.Clean {
 					return // persistent taken over by persistent: not in the alphabet (KF-C16)
 				}
-				p := e.dial(op.C, op.Clean)
+				p := e.dial(op.C, op.Clean, op.Will)
 				if p == nil {
 					return
 				}
@@ -323,6 +362,11 @@ func c14GenConn(r *vfRand, adv bool) c14In {
 	in := c14In{Lru: r.Range(1, 3)}
 	nc := r.Range(1, 3)
 	cids := []string{"c1", "c2", "c3"}[:nc]
+	if r.Chance(1, 3) {
+		// the zero-length client id: legal with a clean session only (MQTT-3.1.3-7)
+		cids[r.Intn(nc)] = ""
+	}
+	will := func() string { return r.PickStr("", "", "pass", "drop", "drop", "disc") }
 	type cst struct {
 		online, clean, known bool
 		subs                 []string // filters of the current session
@@ -389,7 +433,10 @@ func c14GenConn(r *vfRand, adv bool) c14In {
 		if s.known && !s.clean {
 			clean = r.Chance(1, 6)
 		}
-		in.Ops = append(in.Ops, c14Op{K: "conn", C: c, Clean: clean})
+		if c == "" {
+			clean = true
+		}
+		in.Ops = append(in.Ops, c14Op{K: "conn", C: c, Clean: clean, Will: will()})
 		if clean || s.clean {
 			s.subs = nil
 		}
@@ -449,10 +496,10 @@ func c14GenConn(r *vfRand, adv bool) c14In {
 		case x < 79:
 			// take-over (persistent by persistent is outside the alphabet)
 			clean := r.Chance(2, 3)
-			if !s.clean && !clean && !r.Chance(1, 10) {
+			if (!s.clean && !clean && !r.Chance(1, 10)) || c == "" {
 				clean = true
 			}
-			in.Ops = append(in.Ops, c14Op{K: "conn", C: c, Clean: clean, How: r.PickStr("drop", "disconnect")})
+			in.Ops = append(in.Ops, c14Op{K: "conn", C: c, Clean: clean, How: r.PickStr("drop", "drop", "disconnect"), Will: will()})
 			if s.clean || clean {
 				s.clean = clean
 				s.subs = nil
@@ -473,7 +520,7 @@ func c14GenConn(r *vfRand, adv bool) c14In {
 	}
 	for _, c := range cids {
 		s := st[c]
-		if !s.online && s.known && !s.clean {
+		if !s.online && s.known && !s.clean && c != "" {
 			in.Ops = append(in.Ops, c14Op{K: "conn", C: c, Clean: false})
 			s.online = true
 			probe(s)
